@@ -322,6 +322,349 @@ class KeywordCalls(ast.NodeTransformer):
         return node
 
 
+class DropSix(ast.NodeTransformer):
+    """the six compatibility layer replaced by what it stands for under Python 3 (string_types -> (str,), integer_types -> (int,),
+    itervalues(d) -> d.values(), StringIO -> io.StringIO, six.moves.* -> the standard library, PY3 -> True)"""
+    # (the network helpers stay on six.moves: the repository's tests replace six.moves.urllib.request.urlopen)
+    MAP = {"six.moves.http_client.HTTPResponse": "http.client.HTTPResponse"}
+
+    def __init__(self):
+        self.need = set()
+
+    def visit_Call(self, node):
+        self.generic_visit(node)
+        f = node.func
+        if isinstance(f, ast.Attribute) and isinstance(f.value, ast.Name) and f.value.id == "six" and f.attr in ("itervalues", "iteritems", "iterkeys") \
+                and len(node.args) == 1:
+            Counter.n += 1
+            return ast.Call(func=ast.Attribute(value=node.args[0], attr=f.attr[4:], ctx=ast.Load()), args=[], keywords=[])
+        return node
+
+    def visit_Attribute(self, node):
+        try:
+            text = ast.unparse(node)
+        except Exception:
+            text = ""
+        if text in self.MAP:
+            Counter.n += 1
+            self.need.add(self.MAP[text].rsplit(".", 1)[0])
+            return ast.parse(self.MAP[text], mode="eval").body
+        self.generic_visit(node)
+        if isinstance(node.value, ast.Name) and node.value.id == "six":
+            if node.attr == "string_types":
+                Counter.n += 1
+                return ast.Tuple(elts=[ast.Name(id="str", ctx=ast.Load())], ctx=ast.Load())
+            if node.attr == "integer_types":
+                Counter.n += 1
+                return ast.Tuple(elts=[ast.Name(id="int", ctx=ast.Load())], ctx=ast.Load())
+            if node.attr == "text_type":
+                Counter.n += 1
+                return ast.Name(id="str", ctx=ast.Load())
+            if node.attr == "PY3":
+                Counter.n += 1
+                return ast.Constant(value=True)
+            if node.attr == "StringIO":
+                Counter.n += 1
+                self.need.add("StringIO")
+                return ast.Name(id="_StringIO", ctx=ast.Load())
+        return node
+
+    def visit_Module(self, node):
+        self.generic_visit(node)
+        body = []
+        still = any(isinstance(n, ast.Name) and n.id == "six" for n in ast.walk(node))
+        placed = False
+        for s in node.body:
+            if isinstance(s, ast.ImportFrom) and s.module == "six.moves.configparser":
+                s = ast.ImportFrom(module="configparser", names=s.names, level=0)
+                Counter.n += 1
+            if s is not None:
+                body.append(s)
+            if not placed and isinstance(s, (ast.Import, ast.ImportFrom)) and not (isinstance(s, ast.ImportFrom) and s.module == "__future__"):
+                for m in sorted(self.need):
+                    if m == "StringIO":
+                        body.append(ast.ImportFrom(module="io", names=[ast.alias(name="StringIO", asname="_StringIO")], level=0))
+                    else:
+                        body.append(ast.Import(names=[ast.alias(name=m, asname=None)]))
+                placed = True
+        node.body = body
+        return node
+
+
+class SuperPy3(ast.NodeTransformer):
+    """``super(Cls, self).m(...)`` -> ``super().m(...)`` inside the methods of Cls"""
+    def visit_ClassDef(self, node):
+        cname = node.name
+        for fn in node.body:
+            if isinstance(fn, ast.FunctionDef) and fn.args.args:
+                first = fn.args.args[0].arg
+                for n in ast.walk(fn):
+                    if isinstance(n, ast.Call) and isinstance(n.func, ast.Name) and n.func.id == "super" and len(n.args) == 2 \
+                            and isinstance(n.args[0], ast.Name) and n.args[0].id == cname and isinstance(n.args[1], ast.Name) \
+                            and n.args[1].id == first:
+                        n.args = []
+                        Counter.n += 1
+        self.generic_visit(node)
+        return node
+
+
+class CompToLoop(ast.NodeTransformer):
+    """``x = [e for v in it if c]`` (one generator, a plain name on the left) -> ``x = []`` + a loop appending e"""
+    def _blocks(self, stmts):
+        out = []
+        for s in stmts:
+            s = self.generic_visit(s)
+            if isinstance(s, ast.Assign) and len(s.targets) == 1 and isinstance(s.targets[0], ast.Name) and isinstance(s.value, ast.ListComp) \
+                    and len(s.value.generators) == 1 and not s.value.generators[0].is_async:
+                g = s.value.generators[0]
+                name = s.targets[0].id
+                used = set(n.id for n in ast.walk(s.value) if isinstance(n, ast.Name))
+                if name in used:
+                    out.append(s)
+                    continue
+                app = ast.Expr(value=ast.Call(func=ast.Attribute(value=ast.Name(id=name, ctx=ast.Load()), attr="append", ctx=ast.Load()),
+                                              args=[s.value.elt], keywords=[]))
+                body = [app]
+                for c in reversed(g.ifs):
+                    body = [ast.If(test=c, body=body, orelse=[])]
+                out.append(ast.Assign(targets=[ast.Name(id=name, ctx=ast.Store())], value=ast.List(elts=[], ctx=ast.Load())))
+                out.append(ast.For(target=g.target, iter=g.iter, body=body, orelse=[]))
+                Counter.n += 1
+            else:
+                out.append(s)
+        return out
+
+    def generic_visit(self, node):
+        for f in ("body", "orelse", "finalbody"):
+            if isinstance(getattr(node, f, None), list) and getattr(node, f) and isinstance(getattr(node, f)[0], ast.stmt):
+                setattr(node, f, self._blocks(getattr(node, f)))
+        if isinstance(node, ast.Try):
+            for h in node.handlers:
+                h.body = self._blocks(h.body)
+        return node
+
+
+class GetNone(ast.NodeTransformer):
+    """``d.get(k, None)`` -> ``d.get(k)``; ``",".join([... for ...])`` -> ``",".join(... for ...)``"""
+    def visit_Call(self, node):
+        self.generic_visit(node)
+        f = node.func
+        if isinstance(f, ast.Attribute) and f.attr == "get" and len(node.args) == 2 and not node.keywords \
+                and isinstance(node.args[1], ast.Constant) and node.args[1].value is None:
+            Counter.n += 1
+            node.args = node.args[:1]
+        if isinstance(f, ast.Attribute) and f.attr == "join" and len(node.args) == 1 and isinstance(node.args[0], ast.ListComp):
+            Counter.n += 1
+            node.args = [ast.GeneratorExp(elt=node.args[0].elt, generators=node.args[0].generators)]
+        return node
+
+
+class InTuple(ast.NodeTransformer):
+    """``x in [<literals>]`` -> ``x in (<literals>)`` and the other way round"""
+    def visit_Compare(self, node):
+        self.generic_visit(node)
+        if len(node.ops) == 1 and isinstance(node.ops[0], (ast.In, ast.NotIn)):
+            c = node.comparators[0]
+            if isinstance(c, (ast.List, ast.Tuple)) and c.elts and all(isinstance(e, ast.Constant) for e in c.elts):
+                Counter.n += 1
+                other = ast.Tuple if isinstance(c, ast.List) else ast.List
+                node.comparators = [other(elts=c.elts, ctx=ast.Load())]
+        return node
+
+
+class EmptyLiteralCalls(ast.NodeTransformer):
+    """``[]`` -> ``list()``, ``{}`` -> ``dict()`` where a fresh empty container is assigned or passed"""
+    def visit_List(self, node):
+        if not node.elts and isinstance(node.ctx, ast.Load):
+            Counter.n += 1
+            return ast.Call(func=ast.Name(id="list", ctx=ast.Load()), args=[], keywords=[])
+        self.generic_visit(node)
+        return node
+
+    def visit_Dict(self, node):
+        if not node.keys:
+            Counter.n += 1
+            return ast.Call(func=ast.Name(id="dict", ctx=ast.Load()), args=[], keywords=[])
+        self.generic_visit(node)
+        return node
+
+
+class SplitTupleAssign(ast.NodeTransformer):
+    """``a, b = x, y`` (two literal tuples, no target read on the right) -> ``a = x`` ; ``b = y``"""
+    def _blocks(self, stmts):
+        out = []
+        for s in stmts:
+            s = self.generic_visit(s)
+            if isinstance(s, ast.Assign) and len(s.targets) == 1 and isinstance(s.targets[0], ast.Tuple) and isinstance(s.value, ast.Tuple) \
+                    and len(s.targets[0].elts) == len(s.value.elts) and all(isinstance(t, (ast.Name, ast.Attribute)) for t in s.targets[0].elts) \
+                    and not any(isinstance(e, ast.Starred) for e in s.value.elts):
+                tnames = set(ast.unparse(t) for t in s.targets[0].elts)
+                rnames = set(ast.unparse(n) for e in s.value.elts for n in ast.walk(e) if isinstance(n, (ast.Name, ast.Attribute)))
+                if not (tnames & rnames) and all(_pure(e) for e in s.value.elts):
+                    for t, e in zip(s.targets[0].elts, s.value.elts):
+                        out.append(ast.Assign(targets=[t], value=e))
+                    Counter.n += 1
+                    continue
+            out.append(s)
+        return out
+
+    def generic_visit(self, node):
+        for f in ("body", "orelse", "finalbody"):
+            if isinstance(getattr(node, f, None), list) and getattr(node, f) and isinstance(getattr(node, f)[0], ast.stmt):
+                setattr(node, f, self._blocks(getattr(node, f)))
+        if isinstance(node, ast.Try):
+            for h in node.handlers:
+                h.body = self._blocks(h.body)
+        return node
+
+
+def _same_exit(a, b):
+    return len(a) == 1 and len(b) == 1 and isinstance(a[0], (ast.Continue, ast.Break, ast.Return, ast.Raise)) and ast.dump(a[0]) == ast.dump(b[0])
+
+
+class MergeExits(ast.NodeTransformer):
+    """consecutive ``if a: <exit>`` / ``if b: <same exit>`` -> ``if a or b: <exit>``"""
+    def _blocks(self, stmts):
+        out = []
+        for s in stmts:
+            s = self.generic_visit(s)
+            if out and isinstance(s, ast.If) and not s.orelse and isinstance(out[-1], ast.If) and not out[-1].orelse \
+                    and _same_exit(out[-1].body, s.body) and not isinstance(s.body[0], ast.Raise):
+                prev = out[-1]
+                vals = []
+                for t in (prev.test, s.test):
+                    vals.extend(t.values if isinstance(t, ast.BoolOp) and isinstance(t.op, ast.Or) else [t])
+                out[-1] = ast.If(test=ast.BoolOp(op=ast.Or(), values=vals), body=prev.body, orelse=[])
+                Counter.n += 1
+                continue
+            out.append(s)
+        return out
+    generic_visit = SplitTupleAssign.generic_visit
+
+
+class SplitOrExits(ast.NodeTransformer):
+    """``if a or b: <exit>`` -> ``if a: <exit>`` ; ``if b: <exit>``"""
+    def _blocks(self, stmts):
+        out = []
+        for s in stmts:
+            s = self.generic_visit(s)
+            if isinstance(s, ast.If) and not s.orelse and len(s.body) == 1 and isinstance(s.body[0], (ast.Continue, ast.Break, ast.Return, ast.Raise)) \
+                    and isinstance(s.test, ast.BoolOp) and isinstance(s.test.op, ast.Or):
+                for v in s.test.values:
+                    out.append(ast.If(test=v, body=[copy.deepcopy(s.body[0])], orelse=[]))
+                Counter.n += 1
+                continue
+            out.append(s)
+        return out
+    generic_visit = SplitTupleAssign.generic_visit
+
+
+class IsinstanceSplit(ast.NodeTransformer):
+    """``isinstance(x, (A, B))`` with a pure x -> ``isinstance(x, A) or isinstance(x, B)``"""
+    def visit_Call(self, node):
+        self.generic_visit(node)
+        if isinstance(node.func, ast.Name) and node.func.id == "isinstance" and len(node.args) == 2 and isinstance(node.args[1], ast.Tuple) \
+                and len(node.args[1].elts) > 1 and _pure(node.args[0]):
+            Counter.n += 1
+            return ast.BoolOp(op=ast.Or(), values=[ast.Call(func=ast.Name(id="isinstance", ctx=ast.Load()),
+                                                            args=[copy.deepcopy(node.args[0]), t], keywords=[]) for t in node.args[1].elts])
+        return node
+
+
+class ExtractConstants(ast.NodeTransformer):
+    """string literals used three times or more inside the functions of a module -> a module-level constant"""
+    def visit_Module(self, node):
+        counts = {}
+        doc = set()
+        for n in ast.walk(node):
+            if isinstance(n, (ast.FunctionDef, ast.ClassDef, ast.Module)) and n.body and isinstance(n.body[0], ast.Expr) \
+                    and isinstance(n.body[0].value, ast.Constant):
+                doc.add(id(n.body[0].value))
+        fns = [n for n in ast.walk(node) if isinstance(n, ast.FunctionDef)]
+        inside = set()
+        for f in fns:
+            for n in ast.walk(f):
+                if isinstance(n, ast.JoinedStr):
+                    for x in ast.walk(n):
+                        doc.add(id(x))
+            for n in ast.walk(f):
+                if isinstance(n, ast.Constant) and isinstance(n.value, str) and id(n) not in doc and 2 <= len(n.value) <= 30 \
+                        and n.value.replace("_", "").replace("-", "").isalnum():
+                    inside.add(id(n))
+                    counts[n.value] = counts.get(n.value, 0) + 1
+        # (defaults of parameters are evaluated at definition time: before the constants below exist only if they are placed
+        # after; they are placed first, right after the imports)
+        taken = set(n.id for n in ast.walk(node) if isinstance(n, ast.Name))
+        names = {}
+        for v, c in sorted(counts.items()):
+            if c >= 3:
+                nm = "_K_" + "".join(ch if ch.isalnum() else "_" for ch in v).upper()
+                if nm not in taken and nm not in names.values():
+                    names[v] = nm
+
+        class Rw(ast.NodeTransformer):
+            def visit_Constant(self_, n):
+                if id(n) in inside and n.value in names:
+                    Counter.n += 1
+                    return ast.Name(id=names[n.value], ctx=ast.Load())
+                return n
+        node = Rw().visit(node)
+        body = []
+        placed = False
+        last_import = max([i for i, s_ in enumerate(node.body) if isinstance(s_, (ast.Import, ast.ImportFrom))] or [-1])
+        for i, s_ in enumerate(node.body):
+            body.append(s_)
+            if i == last_import and not placed:
+                for v, nm in sorted(names.items(), key=lambda kv: kv[1]):
+                    body.append(ast.Assign(targets=[ast.Name(id=nm, ctx=ast.Store())], value=ast.Constant(value=v)))
+                placed = True
+        if not placed:
+            body = [ast.Assign(targets=[ast.Name(id=nm, ctx=ast.Store())], value=ast.Constant(value=v)) for v, nm in sorted(names.items())] + body
+        node.body = body
+        return node
+
+
+class RenameParams(ast.NodeTransformer):
+    """the parameters of private functions and methods (leading underscore) renamed, keyword call sites updated"""
+    RENAMED = {}
+
+    def visit_FunctionDef(self, node):
+        self.generic_visit(node)
+        if node.name.startswith("_") and not node.name.startswith("__") and node.name in self.RENAMED:
+            skip = 1 if node.args.args and node.args.args[0].arg in ("self", "cls") else 0
+            m = dict((a.arg, "p_" + a.arg) for a in node.args.args[skip:])
+            if m and not (set(m.values()) & _names_in(node)):
+                for a in node.args.args[skip:]:
+                    a.arg = m[a.arg]
+                for n in ast.walk(node):
+                    if isinstance(n, ast.Name) and n.id in m:
+                        n.id = m[n.id]
+                Counter.n += 1
+        return node
+
+    def visit_Call(self, node):
+        self.generic_visit(node)
+        name = node.func.attr if isinstance(node.func, ast.Attribute) else (node.func.id if isinstance(node.func, ast.Name) else None)
+        if name in self.RENAMED:
+            for k in node.keywords:
+                if k.arg in self.RENAMED[name]:
+                    k.arg = "p_" + k.arg
+        return node
+
+
+def _collect_private(trees):
+    """private callables whose every definition can be renamed consistently: {name: set of parameter names}"""
+    seen = {}
+    for t in trees.values():
+        for n in ast.walk(t):
+            if isinstance(n, ast.FunctionDef) and n.name.startswith("_") and not n.name.startswith("__"):
+                skip = 1 if n.args.args and n.args.args[0].arg in ("self", "cls") else 0
+                ps = set(a.arg for a in n.args.args[skip:])
+                ok = not n.args.kwarg and not n.args.vararg and not n.args.kwonlyargs and not (set("p_" + p for p in ps) & _names_in(n))
+                seen.setdefault(n.name, []).append((ps, ok))
+    return dict((k, set().union(*[ps for ps, _ in v])) for k, v in seen.items() if all(ok for _, ok in v))
+
+
 def _collect_sigs(trees):
     seen = {}
     for t in trees.values():
@@ -354,6 +697,10 @@ TRANSFORMS = {
     "ifexp-to-stmt": IfExpToStmt, "and-to-nested": AndToNested, "nested-to-and": NestedToAnd, "else-after-exit": ElseAfterExit,
     "de-morgan": DeMorgan, "yoda": Yoda, "return-temp": ReturnTemp, "items-to-keys": ItemsToKeys, "format-style": FormatStyle,
     "import-from": ImportFrom, "import-names": ImportNames, "keyword-calls": KeywordCalls,
+    "drop-six": DropSix, "super-py3": SuperPy3, "comp-to-loop": CompToLoop, "get-none": GetNone, "in-tuple": InTuple,
+    "empty-literal-calls": EmptyLiteralCalls, "split-tuple-assign": SplitTupleAssign, "merge-exits": MergeExits,
+    "split-or-exits": SplitOrExits, "isinstance-split": IsinstanceSplit, "extract-constants": ExtractConstants,
+    "rename-params": RenameParams,
 }
 
 
@@ -372,6 +719,8 @@ def main(argv):
             trees[m] = ast.parse(fh.read())
     if name == "keyword-calls":
         KeywordCalls.SIGS = _collect_sigs(trees)
+    if name == "rename-params":
+        RenameParams.RENAMED = _collect_private(trees)
     total = 0
     for m in MODULES:
         Counter.n = 0
